@@ -56,6 +56,9 @@ def cases(tier, seed):
                     "iseed": int(rng.integers(0, 2**31)), "cost": 8.0})
     for i in range(6 if tier == "quick" else 100):
         out.append({"kind": "stub", "iseed": int(rng.integers(0, 2**31)), "cost": 0.5})
+    for i in range(6 if tier == "quick" else 100):
+        out.append({"kind": "cmask", "iseed": int(rng.integers(0, 2**31)), "cost": 1.0,
+                    "model": ("ZNCC", "NCC", "PCC", "FSC")[i % 4]})
     for i in range(2 if tier == "quick" else 30):
         out.append({"kind": "many", "model": ("ZNCC", "NCC")[int(rng.integers(0, 2))],
                     "iseed": int(rng.integers(0, 2**31)), "cost": 25.0})
@@ -381,6 +384,54 @@ def _stub_case(case):
                    want=quats[best], best=best, T=T)
         case.check(abs(float(res.score) - want_score) <= 1e-6, "custom model: score is not the best candidate's", None,
                    got=float(res.score), want=want_score)
+        # fit of the base class: the same result, and the image transformed by it
+        fitted, res2 = model.fit(img, (1.0, 1.0, 1.0))
+        case.check(int(res2.label) == best and np.allclose(res2.shift, res.shift, atol=1e-6) and
+                   gen.quat_close(res2.quat, res.quat, 1e-6), "custom model: fit reports another result than align", None)
+        from scipy import ndimage as _ndi2
+        want_f = _ndi2.affine_transform(img, res.affine_matrix(img.shape), order=3, mode="constant", cval=float(img.mean()), prefilter=True)
+        ferr = float(np.abs(np.asarray(fitted) - want_f)[2:-2, 2:-2, 2:-2].max()) if np.shape(fitted) == img.shape else np.inf
+        case.maxobs("max_stub_fit_err", ferr if np.isfinite(ferr) else 9.9)
+        case.check(ferr <= 1e-4, "custom model: fit does not return the image transformed by the reported result", None, err=ferr)
+
+
+def _cmask_case(case):
+    """A mask given as a function of the template: with several templates the documented mask is the voxel-wise maximum
+    of the function's values over the templates; the search must then behave exactly as with that array as mask."""
+    from scipy import ndimage as ndi
+
+    p = case.params
+    rng = gen.rng_for(p["iseed"], "c06cm")
+    Model = model_class(p["model"])
+    T = int(rng.integers(1, 4))
+    S = int(rng.choice([12, 13, 14]))
+    shape = (S, S, S) if rng.random() < 0.6 else (S, S + 2, S + 1)
+    tmpls = [gen.render_box(shape, gen.make_blobs(rng, shape, n=3, sigma=(1.2, 1.7), margin=4.0)) for _ in range(T)]
+    seen = []
+
+    def fmask(t):
+        seen.append(np.shape(t))
+        return ndi.gaussian_filter((t > 0.25 * float(np.max(t))).astype(np.float32), 1.0).astype(np.float32)
+
+    rot_arg, rots = rotation_set(rng, ("none", "list3")[int(rng.integers(0, 2))])
+    kw = {} if rot_arg is None else {"rotations": rot_arg}
+    arg = tmpls if T > 1 else tmpls[0]
+    m_fun = Model(arg, fmask, **kw)
+    case.check(len(seen) >= T and all(tuple(sh) == tuple(shape) for sh in seen), "mask function was not called with "
+               "each template (3-D arrays of the template shape)", None, seen=seen[:6], T=T)
+    m_arr = Model(arg, np.stack([fmask(t) for t in tmpls]).max(axis=0), **kw)
+    case.nontrivial(("cmask", p["iseed"]))
+    for _ in range(3):
+        j = int(rng.integers(0, T))
+        d = rng.uniform(-1.5, 1.5, 3)
+        img = ndi.shift(tmpls[j], d, order=3, mode="constant").astype(np.float32) + \
+            (0.02 * rng.normal(size=shape)).astype(np.float32)
+        ra, rb = m_fun.align(img, (2.0, 2.0, 2.0)), m_arr.align(img, (2.0, 2.0, 2.0))
+        case.check(int(ra.label) == int(rb.label) and np.allclose(ra.shift, rb.shift, atol=1e-5)
+                   and gen.quat_close(ra.quat, rb.quat, 1e-6) and abs(float(ra.score) - float(rb.score)) <= 1e-5,
+                   "a mask given as a function of the template does not act like the maximum of its values over the "
+                   "templates", None, T=T, got=(int(ra.label), ra.shift, float(ra.score)),
+                   want=(int(rb.label), rb.shift, float(rb.score)), model=p["model"])
 
 
 def _many_case(case):
@@ -433,6 +484,8 @@ def _many_case(case):
 def run(case):
     if case.params["kind"] == "stub":
         return _stub_case(case)
+    if case.params["kind"] == "cmask":
+        return _cmask_case(case)
     from vcheck import instr
 
     if case.params["kind"] == "many":
